@@ -82,7 +82,15 @@ def obligations(prog, src, tier, seed):
     def run_key(ctx):
         u = sym_uri(ctx, userinfo=True)
         ctx.u = u
-        parts = Agg("struct:Parts", [z3.BitVec("method", 8), u, z3.BitVec("version", 8), HeaderMapV(), None])
+        # the caller may have set any Host header: the pool key must not depend on it
+        hm = HeaderMapV()
+        ctx.hdr = None
+        if ctx.choose([(True, False), (True, True)], "caller-supplied Host header"):
+            from inputs import sym_authority
+            from models import HeaderValueV
+            ctx.hdr = sym_authority(ctx, "_hdr", 3)
+            hm.cell("host").v = HeaderValueV(ctx.hdr.as_str_model(ctx))
+        parts = Agg("struct:Parts", [z3.BitVec("method", 8), u, z3.BitVec("version", 8), hm, None])
         return ctx.exec_fn(f_key, [Ref(Cell(parts, "parts"))])
 
     def check_key(p):
@@ -104,7 +112,7 @@ def obligations(prog, src, tier, seed):
 
     obs.append({"name": "c17_urikey_total", "family": "urikey", "funcs": ["<UriKey as TryFrom<&request::Parts>>::try_from"], "bound": "every URI form",
                 "doc": "key extraction returns Ok/Err(MissingScheme), never panics; the key is (scheme, authority) of the request URI", "run": run_key, "check": check_key,
-                "cex_extract": lambda p, m: dict({"family": "urikey"}, **uri_scenario(m, p.ctx.u)),
+                "cex_extract": lambda p, m: dict({"family": "urikey"}, **uri_scenario(m, p.ctx.u), **({"header.host": __import__("inputs").authority_text(m, p.ctx.hdr)} if getattr(p.ctx, "hdr", None) is not None else {})),
                 "judge": judge_key})
 
     f_hp = prog.find_one(r"^get_host_and_port$")
